@@ -381,3 +381,300 @@ theorem parser_chain_grouping (toks : List Tok) (ha : altP T toks = true) :
 example : altP T [a, op "add", b, op "multiply", c, op "pow", d, op "pow", a, op "subtract", b, op "equal", c] = true := by decide
 
 end Ssl.C14
+
+/-! ## the precedence-correct tree is unique -/
+namespace Ssl.C14
+open Ssl.Pratt
+
+/-- trees of operand leaves and binary operator nodes over the table -/
+def WFT (T : Table) : Tree → Prop
+  | .prim t => isPrim T t = true
+  | .bin l o r => WFT T l ∧ WFT T r ∧ (infixPrec T o).isSome = true
+  | _ => False
+
+/-- every operator occurring in the tree is at least as tight as `(p, ra)` allows on the given side:
+    tighter, or equally tight on a level of the given associativity -/
+def AllOps (T : Table) (p : Nat) (needRight : Bool) : Tree → Prop
+  | .prim _ => True
+  | .bin l o r => AllOps T p needRight l ∧ AllOps T p needRight r ∧
+      (∀ p' ra', infixPrec T o = some (p', ra') → p < p' ∨ (p' = p ∧ ra' = needRight))
+  | _ => True
+
+theorem allOps_weaken (T : Table) (hu : Uniform T) {p q : Nat} {nr nr' : Bool} (h : q < p) :
+    ∀ t, AllOps T p nr t → AllOps T q nr' t
+  | .prim _, _ => trivial
+  | .bin l o r, ⟨hl, hr, ho⟩ => ⟨allOps_weaken T hu h l hl, allOps_weaken T hu h r hr, fun p' ra' hp => by
+      rcases ho p' ra' hp with h1 | h1
+      · left; omega
+      · left; omega⟩
+  | .pre _ _, _ => trivial
+  | .post _ _, _ => trivial
+
+theorem allOps_rel (T : Table) {p : Nat} {nr nr' : Bool} : ∀ t, AllOps T p nr t →
+    (∀ o p' ra', infixPrec T o = some (p', ra') → (p < p' ∨ (p' = p ∧ ra' = nr)) → (p < p' ∨ (p' = p ∧ ra' = nr'))) →
+    AllOps T p nr' t
+  | .prim _, _, _ => trivial
+  | .bin l o r, ⟨hl, hr, ho⟩, f => ⟨allOps_rel T l hl f, allOps_rel T r hr f, fun p' ra' hp => f o p' ra' hp (ho p' ra' hp)⟩
+  | .pre _ _, _, _ => trivial
+  | .post _ _, _, _ => trivial
+
+/-- local precedence-correctness gives the global statement: below `l o r`, everything in `l` is tighter than `o`
+    or equally tight on a left-associative level, everything in `r` tighter or equally tight on a right-associative one -/
+theorem pc_global (T : Table) (hu : Uniform T) : ∀ t, WFT T t → PC T t →
+    ∀ l o r, t = .bin l o r → ∀ p ra, infixPrec T o = some (p, ra) → AllOps T p false l ∧ AllOps T p true r := by
+  intro t
+  induction t with
+  | prim _ => intro _ _ l o r h; cases h
+  | pre _ _ _ => intro _ _ l o r h; cases h
+  | post _ _ _ => intro _ _ l o r h; cases h
+  | bin l0 o0 r0 ihl ihr =>
+    intro hw hpc l o r h p ra hip
+    cases h
+    obtain ⟨hwl, hwr, _⟩ := hw
+    obtain ⟨hpl, hpr, hlo, hro⟩ := hpc
+    constructor
+    · -- the left operand
+      cases l0 with
+      | prim _ => trivial
+      | pre _ _ => exact hwl.elim
+      | post _ _ => exact hwl.elim
+      | bin l1 o1 r1 =>
+        obtain ⟨_, _, ho1⟩ := hwl
+        obtain ⟨⟨p1, ra1⟩, hip1⟩ := Option.isSome_iff_exists.mp ho1
+        obtain ⟨g1, g2⟩ := ihl ⟨‹_›, ‹_›, ho1⟩ hpl l1 o1 r1 rfl p1 ra1 hip1
+        have hroot := hlo o1 p ra p1 ra1 rfl hip hip1
+        refine ⟨?_, ?_, fun p' ra' hp' => ?_⟩
+        · rcases hroot with h1 | ⟨h1, h2⟩
+          · exact allOps_weaken T hu h1 l1 g1
+          · subst h1
+            have : ra1 = false := by rw [← h2]; exact hu.assoc o1 o0 p1 ra1 ra hip1 hip
+            subst this; exact g1
+        · rcases hroot with h1 | ⟨h1, h2⟩
+          · exact allOps_weaken T hu h1 r1 g2
+          · -- equal level, left-associative: the right operand of `o1` must be strictly tighter
+            subst h1
+            have hra1 : ra1 = false := by rw [← h2]; exact hu.assoc o1 o0 p1 ra1 ra hip1 hip
+            subst hra1
+            -- everything in r1 is tighter than p1, or equal on a RIGHT-associative level - impossible on this level
+            exact allOps_rel T r1 g2 (fun o' p' ra' hp' hor => by
+              rcases hor with h3 | ⟨h3, h4⟩
+              · exact Or.inl h3
+              · subst h3
+                have := hu.assoc o' o1 p' ra' false hp' hip1
+                subst this; cases h4)
+        · rw [hip1] at hp'; cases hp'
+          rcases hroot with h1 | ⟨h1, h2⟩
+          · exact Or.inl h1
+          · exact Or.inr ⟨h1, by rw [← h2]; exact hu.assoc o1 o0 p1 ra1 ra hip1 (h1 ▸ hip)⟩
+    · cases r0 with
+      | prim _ => trivial
+      | pre _ _ => exact hwr.elim
+      | post _ _ => exact hwr.elim
+      | bin l2 o2 r2 =>
+        obtain ⟨_, _, ho2⟩ := hwr
+        obtain ⟨⟨p2, ra2⟩, hip2⟩ := Option.isSome_iff_exists.mp ho2
+        obtain ⟨g1, g2⟩ := ihr ⟨‹_›, ‹_›, ho2⟩ hpr l2 o2 r2 rfl p2 ra2 hip2
+        have hroot := hro o2 p ra p2 ra2 rfl hip hip2
+        refine ⟨?_, ?_, fun p' ra' hp' => ?_⟩
+        · rcases hroot with h1 | ⟨h1, h2⟩
+          · exact allOps_weaken T hu h1 l2 g1
+          · subst h1
+            have hra2 : ra2 = true := by rw [← h2]; exact hu.assoc o2 o0 p2 ra2 ra hip2 hip
+            subst hra2
+            exact allOps_rel T l2 g1 (fun o' p' ra' hp' hor => by
+              rcases hor with h3 | ⟨h3, h4⟩
+              · exact Or.inl h3
+              · subst h3
+                have := hu.assoc o' o2 p' ra' true hp' hip2
+                subst this; cases h4)
+        · rcases hroot with h1 | ⟨h1, h2⟩
+          · exact allOps_weaken T hu h1 r2 g2
+          · subst h1
+            have : ra2 = true := by rw [← h2]; exact hu.assoc o2 o0 p2 ra2 ra hip2 hip
+            subst this; exact g2
+        · rw [hip2] at hp'; cases hp'
+          rcases hroot with h1 | ⟨h1, h2⟩
+          · exact Or.inl h1
+          · exact Or.inr ⟨h1, by rw [← h2]; exact hu.assoc o2 o0 p2 ra2 ra hip2 (h1 ▸ hip)⟩
+
+theorem infixPrec_prim {T : Table} {t : Tok} (h : isPrim T t = true) : infixPrec T t = none := by
+  simp only [isPrim, Option.isNone_iff_eq_none] at h
+  simp only [infixPrec, h]
+
+theorem allOps_mem (T : Table) {p : Nat} {nr : Bool} : ∀ t, WFT T t → AllOps T p nr t →
+    ∀ tok, tok ∈ flatten t → ∀ p' ra', infixPrec T tok = some (p', ra') → p < p' ∨ (p' = p ∧ ra' = nr)
+  | .prim a, hw, _, tok, hm, p', ra', hp => by
+    simp only [flatten, List.mem_singleton] at hm; subst hm
+    rw [infixPrec_prim hw] at hp; cases hp
+  | .bin l o r, ⟨hwl, hwr, _⟩, ⟨hl, hr, ho⟩, tok, hm, p', ra', hp => by
+    simp only [flatten, List.mem_append, List.mem_cons] at hm
+    rcases hm with hm | rfl | hm
+    · exact allOps_mem T l hwl hl tok hm p' ra' hp
+    · exact ho p' ra' hp
+    · exact allOps_mem T r hwr hr tok hm p' ra' hp
+  | .pre _ _, hw, _, _, _, _, _, _ => hw.elim
+  | .post _ _, hw, _, _, _, _, _, _ => hw.elim
+
+/-- two precedence-correct trees over the same token sequence are the same tree: the grouping the table prescribes is
+    the ONLY one in which tighter operators stand below looser ones and equal levels group by their associativity -/
+theorem pc_unique (T : Table) (hu : Uniform T) : ∀ t1 t2, WFT T t1 → WFT T t2 → PC T t1 → PC T t2 →
+    flatten t1 = flatten t2 → t1 = t2 := by
+  intro t1
+  induction t1 with
+  | pre _ _ _ => intro _ hw; exact hw.elim
+  | post _ _ _ => intro _ hw; exact hw.elim
+  | prim a =>
+    intro t2 _ hw2 _ _ hf
+    cases t2 with
+    | prim b => simp only [flatten, List.cons.injEq, and_true] at hf; rw [hf]
+    | pre _ _ => exact hw2.elim
+    | post _ _ => exact hw2.elim
+    | bin l2 o2 r2 =>
+      exfalso
+      have := congrArg List.length hf
+      simp only [flatten, List.length_cons, List.length_nil, List.length_append] at this
+      have := List.length_pos_iff.mpr (flatten_ne_nil l2)
+      omega
+  | bin l1 o1 r1 ihl ihr =>
+    intro t2 hw1 hw2 hpc1 hpc2 hf
+    cases t2 with
+    | pre _ _ => exact hw2.elim
+    | post _ _ => exact hw2.elim
+    | prim b =>
+      exfalso
+      have := congrArg List.length hf
+      simp only [flatten, List.length_cons, List.length_nil, List.length_append] at this
+      have := List.length_pos_iff.mpr (flatten_ne_nil l1)
+      omega
+    | bin l2 o2 r2 =>
+      obtain ⟨hwl1, hwr1, ho1⟩ := hw1
+      obtain ⟨hwl2, hwr2, ho2⟩ := hw2
+      obtain ⟨⟨p1, ra1⟩, hip1⟩ := Option.isSome_iff_exists.mp ho1
+      obtain ⟨⟨p2, ra2⟩, hip2⟩ := Option.isSome_iff_exists.mp ho2
+      obtain ⟨g1l, g1r⟩ := pc_global T hu (.bin l1 o1 r1) ⟨hwl1, hwr1, ho1⟩ hpc1 l1 o1 r1 rfl p1 ra1 hip1
+      obtain ⟨g2l, g2r⟩ := pc_global T hu (.bin l2 o2 r2) ⟨hwl2, hwr2, ho2⟩ hpc2 l2 o2 r2 rfl p2 ra2 hip2
+      simp only [flatten] at hf
+      have same : flatten l1 = flatten l2 ∧ o1 = o2 ∧ flatten r1 = flatten r2 := by
+        rcases List.append_eq_append_iff.mp hf with ⟨m, h1, h2⟩ | ⟨m, h1, h2⟩
+        · cases m with
+          | nil =>
+            simp only [List.append_nil, List.nil_append, List.cons.injEq] at h1 h2
+            exact ⟨h1.symm, h2.1, h2.2⟩
+          | cons x m' =>
+            exfalso
+            simp only [List.cons_append, List.cons.injEq] at h2
+            obtain ⟨rfl, h2⟩ := h2
+            -- o1 stands inside l2, o2 inside r1
+            have a1 := allOps_mem T l2 hwl2 g2l o1 (by rw [h1]; simp) p1 ra1 hip1
+            have a2 := allOps_mem T r1 hwr1 g1r o2 (by rw [h2]; simp) p2 ra2 hip2
+            rcases a1 with a1 | ⟨a1, a1'⟩ <;> rcases a2 with a2 | ⟨a2, a2'⟩
+            · omega
+            · omega
+            · omega
+            · subst a1
+              have := hu.assoc o1 o2 p1 ra1 ra2 hip1 hip2
+              subst this; subst a1'; cases a2'
+        · cases m with
+          | nil =>
+            simp only [List.append_nil, List.nil_append, List.cons.injEq] at h1 h2
+            exact ⟨h1, h2.1.symm, h2.2.symm⟩
+          | cons x m' =>
+            exfalso
+            simp only [List.cons_append, List.cons.injEq] at h2
+            obtain ⟨rfl, h2⟩ := h2
+            have a1 := allOps_mem T l1 hwl1 g1l o2 (by rw [h1]; simp) p2 ra2 hip2
+            have a2 := allOps_mem T r2 hwr2 g2r o1 (by rw [h2]; simp) p1 ra1 hip1
+            rcases a1 with a1 | ⟨a1, a1'⟩ <;> rcases a2 with a2 | ⟨a2, a2'⟩
+            · omega
+            · omega
+            · omega
+            · subst a1
+              have := hu.assoc o2 o1 p2 ra2 ra1 hip2 hip1
+              subst this; subst a1'; cases a2'
+      obtain ⟨sl, so, sr⟩ := same
+      obtain ⟨hpl1, hpr1, _, _⟩ := hpc1
+      obtain ⟨hpl2, hpr2, _, _⟩ := hpc2
+      rw [ihl l2 hwl1 hwl2 hpl1 hpl2 sl, ihr r2 hwr1 hwr2 hpr1 hpr2 sr, so]
+
+/-! ### what the loop builds on a chain has operand leaves and binary nodes only -/
+
+structure InvW (T : Table) (f : Nat) : Prop where
+  expr : ∀ toks rbp t rest, altP T toks = true → Pratt.expr T f toks rbp = .ok (t, rest) → WFT T t ∧ altO T rest = true
+  loop : ∀ lhs toks rbp t rest, altO T toks = true → WFT T lhs → Pratt.loop T f lhs toks rbp = .ok (t, rest) →
+    WFT T t ∧ altO T rest = true
+
+theorem invW_all (T : Table) : ∀ f, InvW T f
+  | 0 => by constructor <;> intros <;> simp_all [Pratt.expr, Pratt.loop]
+  | f + 1 => by
+    have ih := invW_all T f
+    constructor
+    · intro toks rbp t rest ha h
+      simp only [Pratt.expr] at h
+      cases f with
+      | zero => simp [Pratt.nud] at h
+      | succ f' =>
+        cases toks with
+        | nil => simp [altP] at ha
+        | cons p0 rest0 =>
+          simp only [altP, Bool.and_eq_true] at ha
+          have hp0 := ha.1
+          simp only [isPrim, Option.isNone_iff_eq_none] at hp0
+          simp only [Pratt.nud, hp0] at h
+          exact ih.loop (.prim p0) rest0 rbp t rest ha.2 ha.1 h
+    · intro lhs toks rbp t rest ha hw h
+      cases toks with
+      | nil =>
+        simp only [Pratt.loop, Res.ok.injEq, Prod.mk.injEq] at h
+        obtain ⟨rfl, rfl⟩ := h
+        exact ⟨hw, rfl⟩
+      | cons o rest0 =>
+        have ha0 := ha
+        simp only [altO, Bool.and_eq_true, Option.isSome_iff_exists] at ha
+        obtain ⟨⟨⟨p, ra⟩, hip⟩, hrest0⟩ := ha
+        have hget := infixPrec_get hip
+        simp only [Pratt.loop, hget] at h
+        by_cases hlt : rbp < p
+        · simp only [hlt, if_true] at h
+          have key : ∀ rbp' rhs rest', Pratt.expr T f rest0 rbp' = .ok (rhs, rest') →
+              Pratt.loop T f (.bin lhs o rhs) rest' rbp = .ok (t, rest) → WFT T t ∧ altO T rest = true := by
+            intro rbp' rhs rest' he hl
+            obtain ⟨w1, w2⟩ := ih.expr rest0 rbp' rhs rest' hrest0 he
+            exact ih.loop (.bin lhs o rhs) rest' rbp t rest w2
+              ⟨hw, w1, by simp only [Option.isSome_iff_exists]; exact ⟨(p, ra), hip⟩⟩ hl
+          cases ra with
+          | false =>
+            simp only [if_false, Bool.false_eq_true] at h
+            cases he : Pratt.expr T f rest0 p with
+            | ok pr => obtain ⟨rhs, rest'⟩ := pr; rw [he] at h; exact key p rhs rest' he h
+            | _ => rw [he] at h; cases h
+          | true =>
+            simp only [if_true] at h
+            cases he : Pratt.expr T f rest0 (p - 1) with
+            | ok pr => obtain ⟨rhs, rest'⟩ := pr; rw [he] at h; exact key (p - 1) rhs rest' he h
+            | _ => rw [he] at h; cases h
+        · simp only [hlt, if_false, Res.ok.injEq, Prod.mk.injEq] at h
+          obtain ⟨rfl, rfl⟩ := h
+          exact ⟨hw, ha0⟩
+
+/-- the parser answers THE precedence-correct tree: any tree of operand leaves and binary nodes that reads as the
+    chain and is precedence-correct at every node is the tree the Pratt loop builds -/
+theorem parse_chain_unique (T : Table) (hu : Uniform T) (toks : List Tok) (ha : altP T toks = true)
+    (t' : Tree) (hw : WFT T t') (hpc : PC T t') (hf : flatten t' = toks) : Pratt.parse T toks = .ok t' := by
+  obtain ⟨t, hp, h1, h2⟩ := parse_chain_total T hu toks ha
+  have hwt : WFT T t := by
+    unfold Pratt.parse at hp
+    cases he : Pratt.expr T (3 * toks.length + 3) toks 0 with
+    | ok pr =>
+      obtain ⟨t0, rest⟩ := pr
+      rw [he] at hp
+      simp only [Res.ok.injEq] at hp; subst hp
+      exact ((invW_all T _).expr toks 0 t0 rest ha he).1
+    | _ => rw [he] at hp; cases hp
+  rw [hp, pc_unique T hu t t' hwt hw h2 hpc (h1.trans hf.symm)]
+
+/-- … for the parser's own table -/
+theorem parser_chain_unique (toks : List Tok) (ha : altP T toks = true) (t' : Tree) (hw : WFT T t') (hpc : PC T t')
+    (hf : flatten t' = toks) : Pratt.parse T toks = .ok t' :=
+  parse_chain_unique T table_uniform toks ha t' hw hpc hf
+
+end Ssl.C14
